@@ -262,6 +262,41 @@ def _c10(tier="quick", seed=0):
     return out
 
 
+def _c14(tier="quick", seed=0):
+    """every constrained year is rescaled: the constraint functions return their accumulated penalty only after the loop over years"""
+    return flow.no_return_inside_loops("optimization:TotalSpendConstraint.constrain_instructions") + flow.no_return_inside_loops("optimization:Optimization.constrain_instructions")
+
+
+def _replay_coverage_report():
+    """a finished tb_simple run: asking the result for the number eligible must not change the recorded compartment sizes"""
+    import numpy as np
+    import atomica as at
+
+    _quiet()
+    P = at.demo("tb_simple", do_run=False)
+    res = P.run_sim(P.parsets[0], P.progsets[0], at.ProgramInstructions(start_year=2018))
+    before = {(p.name, c.name): c.vals.copy() for p in res.model.pops for c in p.comps}
+    multi = [k for k, pr in res.model.progset.programs.items() if len(pr.target_pops) * len(pr.target_comps) >= 2]
+    first = res.get_coverage("eligible")
+    second = res.get_coverage("eligible")
+    changed = [k for k, v in before.items() if not np.array_equal(v, [c for p in res.model.pops for c in p.comps if (p.name, c.name) == k][0].vals, equal_nan=True)]
+    differ = [k for k in first if not np.allclose(first[k], second[k], equal_nan=True)]
+    pre = dict(project="tb_simple", programs_with_several_targets=multi)
+    if changed or differ:
+        return dict(verdict="violates", detail="after Result.get_coverage('eligible') the recorded sizes of %s changed; a second call reports a different number eligible for %s" % (changed[:3], differ[:3]), prestate=pre)
+    return dict(verdict="holds", detail="the result is unchanged by the report and two calls agree", prestate=pre)
+
+
+def _c13(tier="quick", seed=0):
+    """reports must not write into the arrays of the finished run (the eligible count is accumulated in a copy)"""
+    return _attach(flow.no_inplace_update_of_borrowed_arrays("results:Result.get_coverage"), "inplace-on-borrowed", _replay_coverage_report)
+
+
+EXTRA_CHECKS["C14"] = _c14
+_c13_prev = EXTRA_CHECKS.get("C13")
+EXTRA_CHECKS["C13"] = (lambda tier="quick", seed=0: (_c13_prev(tier, seed) if _c13_prev else []) + _c13(tier, seed))
+_c20_prev2 = EXTRA_CHECKS.get("C20") or _c20
+EXTRA_CHECKS["C20"] = (lambda tier="quick", seed=0: _c20_prev2(tier, seed) + _c13(tier, seed))
 EXTRA_CHECKS["C10"] = _c10
 EXTRA_CHECKS["C01"] = _with_order(EXTRA_CHECKS.get("C01"))
 EXTRA_CHECKS["C06"] = _with_order(EXTRA_CHECKS.get("C06"))
